@@ -16,8 +16,9 @@ Representation choices (none is read by the modelled code paths in a way that ch
 * an exchange records what was written to its `ResponseWriter` (`out`), what was written while the
   writer fails (`lost`: reaches nobody) and how many more writes succeed (`budget`).
 * `store` is the *abstract* event store of C20: per stream the full append log (`none` = the empty
-  priming payload).  It is never purged here (C08 assumes the store keeps its contract; C20 proves
-  the in-memory store either replays exactly or reports the purge).
+  priming payload) — the ground truth; `purged` says how many entries of each log the store has evicted
+  (label EVICT, at any time, any prefix); `After` from an evicted position fails (`ErrEventsPurged`) and the
+  GET is answered 400 (C20 proves the in-memory store either replays exactly or reports the purge).
 * ghost fields, never read by `step`: `Item.ctx`, `Exch.stream`, `Exch.from`, `Stream.calls`, `Conn.hist`, `Conn.born`.
 
 Deviations from Appendix E (all recorded because the differential run asked for them):
@@ -31,7 +32,7 @@ Deviations from Appendix E (all recorded because the differential run asked for 
 * `select`s on `c.done` that race with a ready channel (`incoming` has room) are resolved as: POST without
   calls ⇒ 202; POST with calls / GET on a closed session ⇒ registered / attached, then released at once;
 * not modelled: the SEP-2575 `overrideStatus` path (protocol-level JSON-RPC errors under 2026-07-28),
-  purging in the store, `EventStore` methods returning errors.
+  `EventStore.Append` / `Open` returning errors (`After` failing — purged, unknown stream, closed session — is modelled).
 -/
 namespace Resume
 
@@ -129,6 +130,7 @@ structure Conn (α : Type) where
   nextSid    : SId
   hist       : SId → Option (List ReqId × Bool)       -- ghost: (calls, listen) of every registered stream
   born       : SId → Option ExId := fun _ => none     -- ghost: the POST exchange that registered the stream
+  purged     : SId → Nat := fun _ => 0                -- event store: entries evicted from the front of each log (`dataList.first`)
 
 /-- `Connect`: the standalone stream exists from the start and is opened in the store. -/
 def init {α} (cfg : Cfg) : Conn α :=
@@ -150,6 +152,7 @@ inductive Label (α : Type) where
   | get (hdr : Hdr) (ver : Ver) (budget : Option Nat)
   | sclose (req : ReqId) (retry : Bool)
   | «end»
+  | evict (sid : SId) (n : Nat)      -- the event store drops the entries before index `n` of a stream's log (`MemoryEventStore.purge`)
 deriving Repr
 
 /-- what `Write` returned -/
@@ -364,10 +367,14 @@ def Hdr.has : Hdr → Bool
 def toReplay {α} (log : List (Option (Item α))) («from» : Nat) : List (Item α) :=
   (log.drop «from»).filterMap id
 
-/-- `EventStore.After`; `none` = it failed (unknown stream, or `SessionClosed` removed the session) -/
+/-- `EventStore.After`; `none` = it failed: unknown stream, `SessionClosed` removed the session, or the entries
+right after the resume point were evicted (`ErrEventsPurged`: `index + 1 < dataList.first`) -/
 def replayItems {α} (c : Conn α) (sid : SId) («from» : Nat) : Option (List (Item α)) :=
   if c.cfg.hasStore then
-    if c.isDone then none else (c.store sid).map (fun log => toReplay log «from»)
+    if c.isDone then none else
+    match c.store sid with
+    | none => none
+    | some log => if «from» < c.purged sid then none else some (toReplay log «from»)
   else some []
 
 /-- replay loop: ids are `from, from+1, …` counted over the replayed items; stops at the first failed write -/
@@ -410,6 +417,14 @@ def get {α} (c : Conn α) (hdr : Hdr) (ver : Ver) (budget : Option Nat) : Conn 
       | none => statusEx c 400                                         -- `After` failed
       | some items => getGo c hdr.sid hdr.from ver budget items
 
+/-! ### EVICT (`MemoryEventStore.purge`, run by any `Append` / `SetMaxBytes` of the shared store) -/
+
+/-- the store forgets the entries of `sid` before index `n` (it never forgets what is not there yet, and never
+un-forgets).  `store` keeps the full append log: it is the ground truth the theorems speak about; what the
+store can still replay is `log.drop (purged sid)`. -/
+def evict {α} (c : Conn α) (sid : SId) (n : Nat) : Conn α :=
+  { c with purged := fun k => if k = sid then max (c.purged k) (min n ((c.store k).getD []).length) else c.purged k }
+
 /-! ### SCLOSE (`CloseSSEStream` → `stream.close`) and END (`Close`) -/
 
 def sclose {α} (c : Conn α) (req : ReqId) (retry : Bool) : Conn α :=
@@ -433,6 +448,7 @@ def stepR {α} (c : Conn α) : Label α → Conn α × Res
   | .get hdr ver budget => (get c hdr ver budget, .na)
   | .sclose req retry => (sclose c req retry, .na)
   | .end => ({ c with isDone := true }, .na)
+  | .evict sid n => (evict c sid n, .na)
 
 def step {α} (c : Conn α) (l : Label α) : Conn α := (stepR c l).1
 
